@@ -16,6 +16,7 @@ mod drive_models;
 mod ans_bounded;
 mod ans_seek;
 mod chain_replay;
+mod pydiff;
 
 fn optc<T: std::str::FromStr>(args: &[String], name: &str) -> Option<T> { args.iter().position(|a| a == name).and_then(|i| args.get(i + 1)).and_then(|s| s.parse().ok()) }
 
@@ -59,6 +60,7 @@ fn main() {
             let precs: Vec<usize> = optc::<String>(&argv, "--precs").unwrap().split(',').map(|x| x.parse().unwrap()).collect();
             drive::drive_range(w, s, &precs, seed, n as usize, &optc::<String>(&argv, "--trace").unwrap())
         }
+        "pydiff" => pydiff::pydiff(&input.expect("--in")),
         "replay" => ans_replay::replay_file(&input.expect("--in"), &mode, &skip),
         _ => { eprintln!("unknown command {} (seed {}, n {})", cmd, seed, n); std::process::exit(2) }
     });
